@@ -12,7 +12,7 @@ func vpC08N() int {
 	if vp.Tier() == 0 {
 		return 6
 	}
-	return 10
+	return 8
 }
 
 // BitStorage.ReadFrom + Fix on arbitrary bytes, fresh and used storage.
